@@ -320,7 +320,7 @@ func waitChan(c chan struct{}, d time.Duration) bool {
 	select {
 	case <-c:
 		return true
-	case <-time.After(d):
+	case <-time.After(ts(d)):
 		return false
 	}
 }
@@ -354,7 +354,7 @@ func (sc *script) concurrent(conn int, first, pw, pr string, raw []byte) {
 			return "parked"
 		case <-done:
 			return "done"
-		case <-time.After(d):
+		case <-time.After(ts(d)):
 			return "blocked"
 		}
 	}
